@@ -168,6 +168,10 @@ def scenarios(tier):
                 if size in large and win in (2, 3) and quick:
                     continue
                 bound = (2 if size in small else 1 if size in mid else 0) if not quick else (1 if size in small + mid[:3] else 0)
+                if not quick and size in (28, 35, 63, 64, 70, 71, 84, 119, 180, 240, 241) and win in (1, 255):
+                    bound = 2           # thorough: pairs of peer choices on the boundary sizes of the middle range too
+                if not quick and size in small:
+                    bound = 3           # thorough: triples of peer choices on the smallest messages
                 if not quick and size in mid and size not in (28, 35, 63, 64, 70, 71, 84, 119, 180, 240, 241, 600, 601) and win not in (2, 255):
                     continue
                 grants = 'all' if size in small + mid else [1, 2]
